@@ -113,6 +113,9 @@ pub enum PrecompileKind {
     StaticMutator,
     /// Performs a facade read and returns Ok even if the facade returned Err.
     FaultIgnorer,
+    /// Performs a facade read and, if the facade returned Err, reports an error of its OWN (a halt)
+    /// instead of the one the facade recorded.
+    FaultRemapper,
     /// Fatal error iff storage slot (addr, slot) holds `value`; otherwise returns the slot value.
     FatalIf { addr: Address, slot: U256, value: U256 },
     /// Panics iff storage slot (addr, slot) holds `value`.
@@ -390,6 +393,7 @@ impl PrecompileSpec {
             PrecompileKind::Observer => json!("observer"),
             PrecompileKind::StaticMutator => json!("static_mutator"),
             PrecompileKind::FaultIgnorer => json!("fault_ignorer"),
+            PrecompileKind::FaultRemapper => json!("fault_remapper"),
             PrecompileKind::Halter => json!("halter"),
             PrecompileKind::FatalIf { addr, slot, value } => json!({"fatal_if": [a(addr), u(slot), u(value)]}),
             PrecompileKind::PanicIf { addr, slot, value } => json!({"panic_if": [a(addr), u(slot), u(value)]}),
@@ -403,6 +407,7 @@ impl PrecompileSpec {
             Some("observer") => PrecompileKind::Observer,
             Some("static_mutator") => PrecompileKind::StaticMutator,
             Some("fault_ignorer") => PrecompileKind::FaultIgnorer,
+            Some("fault_remapper") => PrecompileKind::FaultRemapper,
             Some("halter") => PrecompileKind::Halter,
             _ => {
                 if !k["fatal_if"].is_null() {
